@@ -97,6 +97,26 @@ Notation "'do' x '<-' m ';' k" := (mbind m (fun x => k))
 (** [run_raw] seen from inside: environment, code, resolve flag, current depth count. *)
 Definition runner := env -> code -> bool -> nat -> M value.
 
+(** utils/clock.rs: while the compiler folds constants, the guard it holds refuses the clock (an
+    ordinary error value) and names that are not bound yet (the evaluation ends), and REMEMBERS that
+    such a run-time input was asked for, so that check_for_const can refuse to freeze whatever is
+    computed afterwards: a macro turns a failed body into an error value and a match arm skips a
+    failing pattern, so the value alone does not tell.  The memory is a mark in the call log (no
+    bound function can be called "<runtime>").  The clock is asked for by now() without arguments
+    and by the zero-parameter overload of timestamp(), which the null padding of the dispatcher
+    also selects for timestamp(null). *)
+Definition runtime_mark : logent := (#"<runtime>", VNull, []).
+Definition is_runtime_mark (e : logent) : bool := bytes_eqb (fst (fst e)) #"<runtime>".
+Definition runtime_requested (lg : log) : bool := existsb is_runtime_mark lg.
+Definition asks_clock_fn (name : bytes) (args : list value) : bool :=
+  bytes_eqb name #"now" && match args with [] => true | _ => false end.
+Definition asks_clock_ty (tn : bytes) (args : list value) : bool :=
+  bytes_eqb tn #"timestamp" && match args with [] | [VNull] => true | _ => false end.
+Definition note_clock (E : env) (asked : bool) : M unit :=
+  fun lg => (ROk tt, if folding E && asked then runtime_mark :: lg else lg).
+(** the evaluation ends because a name is not bound while folding: remembered too *)
+Definition mfail_runtime {A} (e : cel_error) : M A := fun lg => (RErr e, runtime_mark :: lg).
+
 Section Step.
   Variable rs : runner.
   Variable E : env.
@@ -116,7 +136,7 @@ Section Step.
         | None =>
             (* while the compiler folds constants (no clock) an unbound name ends the evaluation *)
             match e_now E with
-            | None => mfail (EBinding name)
+            | None => mfail_runtime (EBinding name)
             | Some _ => mret (VErr (EBinding name))
             end
         end
@@ -158,6 +178,7 @@ Section Step.
     match assoc name (e_ufuncs E) with
     | Some u => fun lg => (ROk (ufun_apply u this args), (name, this, args) :: lg)
     | None =>
+      do _ <- note_clock E (asks_clock_fn name args);
       match call_default (e_now E) name this args with
       | Some r => mlift r
       | None => mfail EInternal
@@ -437,7 +458,7 @@ Section Step.
                 | None =>
                     if has_func E ident then mret (None, SBound false ident obj :: st2)
                     else if has_macro E ident then mret (None, SBound true ident obj :: st2)
-                    else if folding E then mfail (EAttribute ident)
+                    else if folding E then mfail_runtime (EAttribute ident)
                     else mret (None, push (VErr (EAttribute ident)) st2)
                 end
             | VErr _ => mret (None, push obj st2)
@@ -445,7 +466,7 @@ Section Step.
                 if negb (e_bound E) then mfail ERuntime
                 else if has_func E ident then mret (None, SBound false ident obj :: st2)
                 else if has_macro E ident then mret (None, SBound true ident obj :: st2)
-                else if folding E then mfail (EAttribute ident)
+                else if folding E then mfail_runtime (EAttribute ident)
                 else mret (None, push (VErr (EAttribute ident)) st2)
             end
         | SVal _ =>
@@ -467,11 +488,13 @@ Section Step.
             else match env_type E name with
                  | Some (VType tn) =>
                      do vals <- resolve_args args;
+                     do _ <- note_clock E (asks_clock_ty tn vals);
                      do r <- mlift (construct_type (e_now E) tn vals); mret (None, push r st2)
-                 | _ => if folding E then mfail ERuntime else mret (None, push (VErr ERuntime) st2)
+                 | _ => if folding E then mfail_runtime ERuntime else mret (None, push (VErr ERuntime) st2)
                  end
         | SVal (VType tn) =>
             do vals <- resolve_args args;
+            do _ <- note_clock E (asks_clock_ty tn vals);
             do r <- mlift (construct_type (e_now E) tn vals); mret (None, push r st2)
         | SVal (VErr e) => mret (None, push (VErr e) st2)
         | SVal _ => mret (None, push (VErr ERuntime) st2)
